@@ -1,4 +1,5 @@
 """C05 — query answers match SQL semantics: populations + queries against RefDB."""
+import re
 from lib.runner import Spec, Stream, Case
 from lib import sqlgen as G
 
@@ -120,15 +121,18 @@ def gen_case(rng, feats, nq):
     return Case(rust, coq, "queries", {"n": nq})
 
 
+_ROWS = re.compile(r"rows!:(\d+)\[([^\]]*)\]")
+
+
 def canon(line):
     """unordered answers are compared as bags; error classes collapse to err (a panic stays distinct)"""
+    def srt(m):
+        rows = m.group(2).split(";") if m.group(2) else []
+        return "rows!:%s[%s]" % (m.group(1), ";".join(sorted(rows)))
     out = []
     for seg in line.split(" | "):
-        if seg.startswith("rows!:"):
-            head, body = seg.split("[", 1)
-            rows = body[:-1].split(";") if body[:-1] else []
-            seg = head + "[" + ";".join(sorted(rows)) + "]"
-        elif seg.startswith("err:") and seg != "err:panic":
+        seg = _ROWS.sub(srt, seg)
+        if seg.startswith("err:") and seg != "err:panic":
             seg = "err"
         out.append(seg)
     return " | ".join(out)
@@ -264,7 +268,7 @@ class C05(Spec):
             "with minimal SQL parentheses must parse back to themselves (independent python oracle) and agree with the Pratt model, plus "
             "mutated token sequences; distinct = distinct case lines; non-trivial = case has at least one row-returning query")
     streams = [Stream("queries", "sql", ["Base.Bytes", "Model.Values", "Spec.RefDB", "Spec.RefDBRun"], "run_sql_case", gen_cases,
-                      canon=canon, rust_shards=8, shard=40, nontrivial=lambda c, il: "rows" in il),
+                      canon=canon, rust_shards=8, shard=40, reference=True, nontrivial=lambda c, il: "rows" in il),
                Stream("pexpr", "pexpr", ["Base.Bytes", "Model.PrattOps", "Model.Pratt", "Model.PrattRun"], "run_pexpr_case", gen_pexpr,
                       oracle=oracle_pexpr, nontrivial=lambda c, il: len(c.rust) > 12)]
     trusted_extra = ["RefDB (Spec/RefDB.v) is the specification of SQL semantics used as oracle; it is hand-written and reviewed, not derived",
